@@ -91,6 +91,16 @@ def run(ctx):
             battle.write_replay(p, 'wowsreplay', {'clientVersionFromXml': vs}, b.stream()); files.append(p)
         for game, v in (('wot', '1_10_0'), ('wowp', '2_1_17')):
             p = os.path.join(tmp, '%s.%s' % (v, {'wot': 'wotreplay', 'wowp': 'wowpreplay'}[game])); battle.write_simple(p, game, v, random.Random(1)); files.append(p)
+        # battles in which packets FAIL (calls, updates and positions for entities that were never created, a cut payload): lenient mode skips them -
+        # and whatever is said about them is said on standard error
+        for v in (picks[-1], picks[0]):
+            b, vs = battle.build_wows(v, random.Random(rng.randrange(10 ** 9)), join=False)
+            for eid in (99999, 0, -7):
+                b.pkt('EntityMethod', struct.pack('<iI', eid, 0) + synth.binstream(b''))
+                b.pkt('EntityProperty', struct.pack('<iI', eid, 0) + synth.binstream(b'\x00'))
+                b.pkt('Position', struct.pack('<ii', eid, 0) + bytes(37))
+            b.pkt('EntityMethod', b'\x01\x02\x03')
+            p = os.path.join(tmp, 'w-%s-failing-packets.wowsreplay' % v); battle.write_replay(p, 'wowsreplay', {'clientVersionFromXml': vs}, b.stream()); files.append(p)
         files += [f for f in recordings.list_recordings() if os.path.getsize(f) < (800000 if q else 10 ** 9)][: (4 if q else 100)]
         env = dict(os.environ, PYTHONPATH=common.REPO, PYTHONHASHSEED='0')
         for f in files:
